@@ -53,9 +53,9 @@ const PPName = "c09pp"
 
 type ppProtocol struct{ api.XProtocol }
 
-func (p ppProtocol) Name() api.ProtocolName  { return PPName }
-func (p ppProtocol) PoolMode() api.PoolMode  { return api.PingPong }
-func (p ppProtocol) EnableWorkerPool() bool  { return false }
+func (p ppProtocol) Name() api.ProtocolName                     { return PPName }
+func (p ppProtocol) PoolMode() api.PoolMode                     { return api.PingPong }
+func (p ppProtocol) EnableWorkerPool() bool                     { return false }
 func (p ppProtocol) Trigger(context.Context, uint64) api.XFrame { return nil } // no keep-alive traffic
 
 // PPCodec is the harness-defined ping-pong codec.
